@@ -594,6 +594,8 @@ class SessionSem(Semantics):
                     path.tags[dk] = 'cookie:response'
                 elif t0 and t0.startswith('cookie:'):
                     path.tags[dk] = t0
+                elif t0 and t0.startswith('ss:') and d is not None and 'OnceCell' in body.locals[d['l']]:
+                    path.tags[dk] = t0          # `OnceCell::from(state)`: a cell holding that state
             return [('next', path)]
         if short == 'pavex_session::id::SessionId::random':
             clear_dest()
@@ -921,7 +923,8 @@ def r5_typestate(ctx):
     ctx.floor('C11.R5', 'store calls interpreted', res['n_store_calls'], 100)
     ctx.ob('C11.R5', 'interpreter-understood-everything', not res['unknown'], sync.loc(),
            'constructs the abstract interpreter could not model: %s' % (res['unknown'][:6] or 'none'))
-    for k, (hist, cfg, detail) in sorted(res['violations'].items()):
+    # verdicts derived from a model with holes are not verdicts: when a construct could not be modelled only that is reported (fail closed)
+    for k, (hist, cfg, detail) in sorted(res['violations'].items() if not res['unknown'] else []):
         ctx.ob('C11.R5', k, False, sync.loc(), '%s. Shortest history: %s [%s]' % (detail, ' ; '.join(hist), cfg))
     ctx.ob('C11.R5', 'explored', True, sync.loc(), '%d abstract states, %d operation runs, %d paths, %d store calls interpreted; %d violation(s)' % (
         res['n_states'], res['n_runs'], res['n_paths'], res['n_store_calls'], len(res['violations'])), nontrivial=False)
